@@ -414,3 +414,37 @@ def pratt_tables(ctx):
                 'infix_tokens': infix_tokens, 'prefix_tokens': prefix_tokens,
                 'infix_operators': {of.get(t) for t in infix_tokens}, 'prefix_operators': {of.get(t) for t in prefix_tokens}}
     return _memo(ctx, 'pratt_tables', build)
+
+
+def top_compile_fns(ctx):
+    """compile_ast and the non-recursive Compiler methods it reaches (the per-program driver code)"""
+    def build():
+        F = ctx.facts()
+        g = F.call_graph()
+        root = 'compiler::Compiler::compile_ast'
+        F.fn(root)
+        out = []
+        seen = set()
+        st = [root]
+        while st:
+            n = st.pop()
+            if n in seen or not n.startswith('compiler::Compiler::') or n not in F.fns:
+                continue
+            seen.add(n)
+            # stop at the recursive arm compilers
+            if n.split('::')[-1] in ('compile_statement', 'compile_expression', 'compile_block_statement'):
+                continue
+            out.append(n)
+            st.extend(g.get(n, ()))
+        return out
+    return _memo(ctx, 'top_compile_fns', build)
+
+
+def bytecode_builder(ctx):
+    F = ctx.facts()
+    for n in top_compile_fns(ctx):
+        fn = F.fn(n)
+        for b, si, st in fn.stmts():
+            if st['k'] == 'assign' and st['rv']['k'] == 'aggregate' and st['rv'].get('adt') == 'compiler::Bytecode':
+                return fn
+    raise CheckerError('anchor: no function reachable from compile_ast builds a Bytecode value')
